@@ -62,5 +62,39 @@ instance [OfNat α 1] [Add α] [Sub α] [Mul α] [Div α] [Neg α] [AbsGt α] : 
 /-- `operator/(double, CComplex)`: `x * inv z` with the real-by-complex product -/
 def rdiv [OfNat α 1] [Add α] [Mul α] [Div α] [Neg α] [AbsGt α] (x : α) (z : Cx α) : Cx α := rmul x (inv z)
 
+/-- `double + CComplex` -/
+def radd [Add α] (r : α) (x : Cx α) : Cx α := ⟨r + x.re, x.im⟩
+/-- `CComplex + double` -/
+def addR [Add α] (x : Cx α) (r : α) : Cx α := ⟨x.re + r, x.im⟩
+/-- `double - CComplex` (also `int - CComplex`) -/
+def rsub [Sub α] [Neg α] (r : α) (x : Cx α) : Cx α := ⟨r - x.re, -x.im⟩
+/-- `CComplex - double` -/
+def subR [Sub α] (x : Cx α) (r : α) : Cx α := ⟨x.re - r, x.im⟩
+/-- the macro `I` = `CComplex(0,1)` -/
+def I [OfNat α 0] [OfNat α 1] : Cx α := ⟨0, 1⟩
+/-- `re + I*im` as the solvers write it: `I*im` is `CComplex * double`, then `double + CComplex` -/
+def ofParts [OfNat α 0] [OfNat α 1] [Add α] [Mul α] (re im : α) : Cx α := radd re (mulR I im)
+
+/-- the real functions of the C library a complex function is built from -/
+structure RealFuns (α : Type) where
+  exp : α → α
+  sin : α → α
+  cos : α → α
+
+/-- `exp(const CComplex&)`: `exp(re)`, `sincos(im)` -/
+def cexp [Mul α] (F : RealFuns α) (x : Cx α) : Cx α :=
+  let e := F.exp x.re
+  ⟨F.cos x.im * e, F.sin x.im * e⟩
+
+/-- `tanh(const CComplex&)` -/
+def ctanh [OfNat α 0] [OfNat α 1] [OfNat α 2] [Add α] [Sub α] [Mul α] [Div α] [Neg α] [AbsGt α] [LT α] [DecidableLT α]
+    (F : RealFuns α) (x : Cx α) : Cx α :=
+  if (0 : α) < x.re then
+    let e := cexp F (rmul (-2) x)
+    rsub 1 e / radd 1 e
+  else
+    let e := cexp F (rmul 2 x)
+    subR e 1 / addR e 1
+
 end Cx
 end XfemmVerif
